@@ -368,7 +368,22 @@ RunOut run_plan(const std::vector<std::string>& lines, uint64_t run_index)
    // ... and either reverse task order, or every operation twice in a row
    g_prog.set(run_index, 3, "sequential-alt");
    if (plan.seq_variant == 0) {
-      for (int i = nt - 1; i >= 0; --i) { Context ctx; for (size_t k = 0; k < plan.tasks[i].size(); ++k) alt[i][k] = exec_op(ctx, plan.tasks[i][k], mod_a[i]); }
+      // reverse task order, and inside each task every maximal run of consecutive read-only operations
+      // (evaluate / print / SM layer) in reverse order: read-only operations commute, so every result
+      // must be the same -- this is the "does not depend on what was computed before" clause inside one thread
+      auto read_only = [](const std::vector<std::string>& op) { return op[0] == "ev" || op[0] == "pr" || op[0] == "sm"; };
+      for (int i = nt - 1; i >= 0; --i) {
+         Context ctx;
+         const auto& prog = plan.tasks[i];
+         size_t k = 0;
+         while (k < prog.size()) {
+            if (!read_only(prog[k])) { alt[i][k] = exec_op(ctx, prog[k], mod_a[i]); ++k; continue; }
+            size_t e = k;
+            while (e < prog.size() && read_only(prog[e])) ++e;
+            for (size_t j = e; j-- > k;) alt[i][j] = exec_op(ctx, prog[j], mod_a[i]);
+            k = e;
+         }
+      }
    } else {
       for (int i = 0; i < nt; ++i) {
          Context ctx;
